@@ -1224,9 +1224,9 @@ func TestConcurrent(t *testing.T) {
 	if evid.ReplayPath() != "" || os.Getenv("VERIF_C10_CHILD") != "" {
 		t.Skip()
 	}
-	n := evid.Scale(4000, 320000)
+	n := evid.Scale(4000, 192000)
 	if raceMode() {
-		n = evid.Scale(500, 20000)
+		n = evid.Scale(500, 12000)
 	}
 	evid.Check(t, "concurrent", n, runConcProp)
 }
@@ -1449,24 +1449,26 @@ func TestConcFindings(t *testing.T) {
 	if evid.ReplayPath() != "" || os.Getenv("VERIF_C10_CHILD") != "" || raceMode() {
 		t.Skip()
 	}
-	if sh, _ := evid.Shard(); sh != 0 {
-		t.Skip()
-	}
-	if lost, detail := probeNotifierRace(3000, false); lost > 0 {
-		c := map[string]any{"kind": "probe", "probe": "notifier", "iterations": 3000}
-		if evid.Finding("C10-closenotifier-race", "probe-closenotifier-race", c, "%d of 3000 runs of {InstantiateModule with CloseNotifier || Runtime.Close}: the instance was closed without its notification\n%s", lost, detail) {
-			t.Fail()
+	// the two probes run on different shards (1 and 2, modulo the shard count)
+	if evid.Mine(1) {
+		if lost, detail := probeNotifierRace(3000, false); lost > 0 {
+			c := map[string]any{"kind": "probe", "probe": "notifier", "iterations": 3000}
+			if evid.Finding("C10-closenotifier-race", "probe-closenotifier-race", c, "%d of 3000 runs of {InstantiateModule with CloseNotifier || Runtime.Close}: the instance was closed without its notification\n%s", lost, detail) {
+				t.Fail()
+			}
+		} else {
+			evid.Note("C10-closenotifier-race: no lost notification in 3000 runs of the probe")
 		}
-	} else {
-		evid.Note("C10-closenotifier-race: no lost notification in 3000 runs of the probe")
 	}
-	if p, detail := probeCompileDuringClose(3000); p > 0 {
-		c := map[string]any{"kind": "probe", "probe": "compile", "iterations": 3000}
-		if evid.Finding("C10-compile-during-close-panics", "probe-compile-during-close", c, "%d of 3000 runs of {CompileModule / HostModuleBuilder.Compile || Runtime.Close} ended in a panic instead of an error\n%s", p, detail) {
-			t.Fail()
+	if evid.Mine(2) {
+		if p, detail := probeCompileDuringClose(1500); p > 0 {
+			c := map[string]any{"kind": "probe", "probe": "compile", "iterations": 1500}
+			if evid.Finding("C10-compile-during-close-panics", "probe-compile-during-close", c, "%d of 1500 runs of {CompileModule / HostModuleBuilder.Compile || Runtime.Close} ended in a panic instead of an error\n%s", p, detail) {
+				t.Fail()
+			}
+		} else {
+			evid.Note("C10-compile-during-close-panics: no panic in 1500 runs of the probe")
 		}
-	} else {
-		evid.Note("C10-compile-during-close-panics: no panic in 3000 runs of the probe")
 	}
 }
 
